@@ -288,6 +288,34 @@ let run_op (g1 : bool) (dbg : bool) (op : str) (a : tok list) : str =
           let p = { pts_proof = { pok_scheme = s; pok_u = u; pok_v = v }; pts_timestamp = t } in
           in_m unit_res (pokts_verify k o c dbg p (public_key k sk) msg tmo now_ns)
         | Panic -> "panic" | Loop -> "loop"))
+  | "bytes_rt" ->
+    let ty = (match arg 0 with TWord w -> w | _ -> failwith "type") and b = bytes_of (arg 1) in
+    let r f e = in_res (fun v -> ":" ^ hex_of_bytes (e v)) (f b) in
+    (match ty with
+     | "pk" | "mpk" -> r (pk_try_from k o c) (pk_to_bytes k o)
+     | "pop" -> r (pop_try_from k o c) (pop_to_bytes k o)
+     | "sk" | "pcs" | "pcc" -> r (sk_try_from k o) (sk_to_bytes k o)
+     | "skenum" -> r (sk_enum_try_from k o) (fun (cv, s) -> sk_enum_to_bytes k o cv s)
+     | "sig" | "aggsig" -> r (signature_try_from k o c) (tagged_to_bytes k o c)
+     | "multisig" -> r (multisig_try_from k o c) (tagged_to_bytes k o c)
+     | "commitment" -> r (commitment_try_from k o c) (tagged_to_bytes k o c)
+     | "pok" -> r (pok_try_from k o c) (pok_to_bytes k o c)
+     | "pokts" -> r (pokts_try_from k o c) (pokts_to_bytes k o c)
+     | "skshare" -> r sk_share_try_from share_to_bytes
+     | "pkshare" | "sdshare" -> r (pk_share_try_from c) share_to_bytes
+     | "egshare" -> r (eg_share_try_from c) share_to_bytes
+     | "inner1" -> r (inner_share_try_from (nat_of_int 48)) share_to_bytes
+     | "inner2" -> r (inner_share_try_from (nat_of_int 96)) share_to_bytes
+     | "sigshare" -> r (sig_share_try_from c) sig_share_to_bytes
+     | "scct" -> r (scct_try_from k o c) (scct_to_bytes k o c)
+     | "scdk" | "egdk" -> r (pk_bare_try_from k o c) (pk_to_bytes k o)
+     | "tlct" -> r (tlct_try_from k o c) (tlct_to_bytes k o c)
+     | "egct" -> r (egct_try_from k o c) (egct_to_bytes k o c)
+     | "egproof" -> r (egp_try_from k o c) (egp_to_bytes k o c)
+     | _ -> "unknown-type:" ^ ty)
+  | "skenum_from_be" ->
+    (match sk_enum_from_be_bytes k o (bytes_of (arg 0)) with
+     | Some (cv, s) -> "some:" ^ hex_of_bytes (sk_enum_to_bytes k o cv s) | None -> "none")
   | "compute_y" -> in_m fmt_scalar (compute_y k o (sigpt_of (arg 0)) (bign_of (arg 1)))
   | _ -> "unknown-op:" ^ op
 
